@@ -110,13 +110,20 @@ func ProfileFor(prop string) *Config {
 		cfg.Oracles = []Oracle{&C05{}}
 	case "C06":
 		cfg.Oracles = []Oracle{C06{}}
-	case "C19", "C19n":
+	case "C19", "C19n", "C19f":
 		// twin worlds from one tape; redaction on (C19) or off (C19n, the built-in sensitivity check)
 		cfg.Gen.NoTruncation = true
 		cfg.Gen.NoAirtime = true
+		cfg.Gen.URNRefs = true
 		cfg.Gen.ForceRedaction = 2
 		if prop == "C19n" {
 			cfg.Gen.ForceRedaction = 1
+		}
+		if prop == "C19f" {
+			// starts without the policy; an environment change switches it on while sessions are waiting
+			cfg.Gen.ForceRedaction = 1
+			cfg.Gen.NoURNQueries = true
+			cfg.RedactionFlips = true
 		}
 	case "C07":
 		cfg.Gen.NoTruncation = true
